@@ -60,6 +60,18 @@ func runC03Reject(seed int64) string {
 	j := cands[r.Intn(len(cands))]
 	typ := firstTypeRe.FindString(rows[1][j])
 	junk := junkFor(typ)
+	if strings.HasPrefix(rows[1][j], "[]") && r.Intn(2) == 0 {
+		// an aggregate cell: the malformed element comes after a valid one and an empty one (seed C03-4: the
+		// element's error was examined only after the "no element may follow an empty one" test)
+		valid := strings.SplitN(rows[k][j], ",", 2)[0]
+		if valid == "" {
+			valid = map[string]string{"bool": "true", "string": "x", "float": "1.5"}[typ]
+			if valid == "" {
+				valid = "1"
+			}
+		}
+		junk = valid + ",," + junk
+	}
 
 	w := newWorkspace()
 	defer w.cleanup()
